@@ -38,11 +38,21 @@ def zero_block_context(case, r, block):
     """was the documented reason (incoming control flow) removed by another
     edit of the same rewrite?"""
     bid = next((b for b, g in r.bu.blocks.items() if g is block), None)
+    lst = rewrite.expected(case)
+    if bid is None:
+        # a continuation block created for a patch: it stands at the end of
+        # the original block whose labels (or whose patch's labels) it holds
+        names = {x.name for x in block.references}
+        for si, ii, t in lst.all_tokens():
+            if t.t == "L" and t.name in names:
+                bid = t.bid if t.bid is not None else (
+                    t.site[0] if t.site else None)
+                if bid is not None:
+                    break
     if bid is None:
         return ""
     blk = rwbase.find_block(case, bid)
     names = set(blk["labels"]) | {x.name for x in block.references}
-    lst = rewrite.expected(case)
     # (b) the data that followed the block was deleted in the same rewrite
     nxt = None
     for s in case["secs"]:
